@@ -16,7 +16,8 @@ Section Get.
   Lemma hoists_mono : forall e, frag e -> forall st, incl (hoists st) (hoists (fst (core e st))).
   Proof.
     intros e Hf st.
-    exact (proj1 (gen_sound scopes lit_str (fun _ => UNone) hv ev ev (covers_refl _ _) e Hf st)).
+    exact (proj1 (gen_sound scopes lit_str (fun _ => UNone) (fun _ => UNone) hv ev ev (covers_refl _ _)
+                            (fun i => covers_refl _ _) e Hf st)).
   Qed.
 
   Lemma tail_keys_app : forall a t,
@@ -154,10 +155,18 @@ Section Get.
       first [ exact (Hrt _ _ _ Et Eq Hv) | exact (Hrf _ _ _ Ef Eq Hv) ].
   Qed.
 
+  Lemma good_scope : forall i, good (EScope i).
+  Proof.
+    intros i st _ p ks v Hp Hd Hv. cbn [gen_core snd g_pas] in Hp.
+    destruct (sv_lv (scope_nth scopes i)); destruct (sv_upt (scope_nth scopes i)); try discriminate;
+      inversion Hp; subst; cbn in Hd; discriminate.
+  Qed.
+
   Theorem path_get : forall e, frag e -> good e.
   Proof.
     induction 1.
     - apply good_field.
+    - apply good_scope.
     - intros st _; cbn [gen_core snd]; apply reads_nopath.
     - intros st _; cbn [gen_core snd]; apply reads_nopath.
     - intros st _; cbn [gen_core snd]; apply reads_nopath.
